@@ -24,6 +24,7 @@ use crate::execution_step::RcSecurityTetraplet;
 use crate::ExecutionError;
 use crate::ToErrorCode;
 
+#[derive(Clone)]
 pub(crate) struct ErrorDescriptor {
     error: InstructionError,
     error_can_be_set: bool,
